@@ -45,21 +45,21 @@ Lemma rt_bin2 op m p a b : printable c dd (EOp op true m p [a; b]) = true -> mem
   rt_ok c dd a -> rt_ok c dd b -> rt_ok c dd (EOp op true m p [a; b]).
 Proof. intros H Hk Ra Rb. destruct (printable_inline_inv _ _ _ _ H) as [-> [-> [_ Hkn]]].
   cbn [printable] in H. rewrite Hk in H. apply andb_prop in H as [_ H]. apply andb_prop in H as [_ H].
-  apply andb_prop in H as [H Hz]. apply andb_prop in H as [H Hcall]. apply andb_prop in H as [Hmem _].
-  apply res_expr_eqb_Ok in Hcall. apply negb_true_iff in Hz.
+  apply andb_prop in H as [H Hcall]. apply andb_prop in H as [Hmem _].
+  apply res_expr_eqb_Ok in Hcall.
   pose proof (bin2_sym op Hmem) as Hsym.
   destruct (op ==s "**") eqn:Epow.
   - (* power *)
-    apply String.eqb_eq in Epow. subst op. cbn [andb] in Hz.
+    apply String.eqb_eq in Epow. subst op.
     change (remap op_remap "**") with "__pow__" in Hcall.
     constructor.
     + intros want. rewrite dt_pow, tp_inline, unparse_par_when. cbn [unparse map join_with].
       rewrite (rt_unparse c dd a Ra true), (rt_unparse c dd b Rb true). destruct want; reflexivity.
     + intros want. rewrite dt_pow, wfn_par_when. cbn [wfn]. rewrite (rt_wfn c dd a Ra true), (rt_wfn c dd b Rb true).
-      unfold at_least. rewrite (rt_lvl12 c dd a Ra Hz). pose proof (rt_lvl10 c dd b Rb).
+      unfold at_least. rewrite (rt_lvl12 c dd a Ra). pose proof (rt_lvl10 c dd b Rb).
       replace (Nat.leb 10 (dlvl (dtree_of true b))) with true; [reflexivity|symmetry; apply Nat.leb_le; lia].
     + rewrite dt_pow. simpl. lia.
-    + intros _. rewrite dt_pow. reflexivity.
+    + rewrite dt_pow. reflexivity.
     + intros want. rewrite dt_pow, strip_par_when. cbn [strip].
       rewrite (walk_power _ _ a b (rt_walk c dd a Ra true) (rt_walk c dd b Rb true)). exact Hcall.
   - (* the other eleven *)
@@ -80,7 +80,7 @@ Proof. intros H Hk Ra Rb. destruct (printable_inline_inv _ _ _ _ H) as [-> [-> [
       replace (Nat.leb (S L) (dlvl (dtree_of true a))) with true by (symmetry; apply Nat.leb_le; lia).
       replace (Nat.leb (S L) (dlvl (dtree_of true b))) with true by (symmetry; apply Nat.leb_le; lia). reflexivity.
     + rewrite (dt_chain true op false None a b [] Epow). simpl. lia.
-    + intros _. rewrite (dt_chain true op false None a b [] Epow). reflexivity.
+    + rewrite (dt_chain true op false None a b [] Epow). reflexivity.
     + intros want. rewrite (dt_chain want op false None a b [] Epow), strip_par_when, HL. cbn [strip map fst snd].
       unfold mk_chain. rewrite Hkeep. cbn [flat_map fst snd app].
       destruct Hname as [[Hn Hnk]|Hn].
@@ -113,7 +113,8 @@ Proof. intros H. destruct xs as [|x xs]; [reflexivity|]. cbn [map args_node call
 Lemma rt_method op p a0 rest : printable c dd (EOp op false true p (a0 :: rest)) = true ->
   (forall x, In x (a0 :: rest) -> rt_ok c dd x) -> rt_ok c dd (EOp op false true p (a0 :: rest)).
 Proof. intros H R. cbn [printable] in H. apply andb_prop in H as [H Hx]. apply andb_prop in H as [Hp _].
-  destruct p as [l|]; [discriminate Hp|]. clear Hp. apply andb_prop in Hx as [Hs Hcall]. apply negb_true_iff in Hs.
+  destruct p as [l|]; [discriminate Hp|]. clear Hp. apply andb_prop in Hx as [Hs Hcall]. apply andb_prop in Hs as [Hs Hdu].
+  apply negb_true_iff in Hs. apply negb_true_iff in Hdu.
   apply res_expr_eqb_Ok in Hcall.
   pose proof (R a0 (or_introl eq_refl)) as R0.
   assert (Rr : forall x, In x rest -> rt_ok c dd x) by (intros x Hx; apply R; right; exact Hx).
@@ -127,14 +128,14 @@ Proof. intros H R. cbn [printable] in H. apply andb_prop in H as [H Hx]. apply a
   - intros want. rewrite dt_method. cbn [wfn]. unfold at_least. cbn [dlvl]. rewrite Hrecv_12. cbn [Nat.leb].
     unfold recv_tree. rewrite wfn_par_when, (rt_wfn c dd a0 R0 false), (args_wfn rest Rr). reflexivity.
   - rewrite dt_method. simpl. lia.
-  - intros _. rewrite dt_method. reflexivity.
+  - rewrite dt_method. reflexivity.
   - intros want. rewrite dt_method.
     change (strip (DCall (DAttr (recv_tree a0) op) (map (dtree_of false) rest) false))
       with (LNode "funccall" [LNode "getattr" [strip (recv_tree a0); LTok (TName op)]; args_node (map (dtree_of false) rest)]).
     rewrite walk_node_eq, wn_funccall. cbn [List.length Nat.ltb Nat.leb map tok_text].
     change ("getattr" ==s "getattr") with true. cbv iota.
     unfold recv_tree at 1. rewrite strip_par_when, (rt_walk c dd a0 R0 false).
-    rewrite (call_args_node rest Rr). exact Hcall. Qed.
+    rewrite (call_args_node rest Rr), Hdu. exact Hcall. Qed.
 
 Lemma rt_fn op p args : printable c dd (EOp op false false p args) = true ->
   (forall x, In x args -> rt_ok c dd x) -> rt_ok c dd (EOp op false false p args).
@@ -144,12 +145,12 @@ Proof. intros H R. cbn [printable] in H. apply andb_prop in H as [H Hx]. apply a
   - intros want. rewrite dt_fn, tp_fn. cbn [unparse]. rewrite (op_tok_name op Hs), commas_join, (args_unparse args R). reflexivity.
   - intros want. rewrite dt_fn. cbn [wfn]. rewrite (args_wfn args R). reflexivity.
   - rewrite dt_fn. simpl. lia.
-  - intros _. rewrite dt_fn. reflexivity.
+  - rewrite dt_fn. reflexivity.
   - intros want. rewrite dt_fn.
     change (strip (DCall (DName op) (map (dtree_of false) args) false))
       with (LNode "funccall" [LNode "var" [LTok (TName op)]; args_node (map (dtree_of false) args)]).
     rewrite walk_node_eq, wn_funccall. cbn [List.length Nat.ltb Nat.leb map tok_text].
-    change ("var" ==s "getattr") with false. cbv iota.
+    change ("var" ==s "getattr") with false. change (negb ("var" ==s "var")) with false. cbv iota.
     rewrite (call_args_node args R). unfold mk_expr. rewrite Hk. reflexivity. Qed.
 
 (* ---- every printable expression *)
